@@ -424,10 +424,15 @@ impl AsyncFleet {
                 }
                 Err(err) => {
                     let should_retry = is_retryable_error(&err);
+                    // Anything but a well-formed error response may have left the
+                    // cached connection unusable (closed by the peer, or shut down
+                    // by the client after a protocol error): never keep it.
+                    if !matches!(err, RepeError::ServerError { .. }) {
+                        invalidate_client(&state).await;
+                    }
                     last_error = Some(err);
 
                     if should_retry {
-                        invalidate_client(&state).await;
                         if attempt + 1 < self.options.retry_policy.max_attempts {
                             tokio::time::sleep(self.options.retry_policy.delay).await;
                         }
@@ -473,10 +478,15 @@ impl AsyncFleet {
                 }
                 Err(err) => {
                     let should_retry = is_retryable_error(&err);
+                    // Anything but a well-formed error response may have left the
+                    // cached connection unusable (closed by the peer, or shut down
+                    // by the client after a protocol error): never keep it.
+                    if !matches!(err, RepeError::ServerError { .. }) {
+                        invalidate_client(&state).await;
+                    }
                     last_error = Some(err);
 
                     if should_retry {
-                        invalidate_client(&state).await;
                         if attempt + 1 < self.options.retry_policy.max_attempts {
                             tokio::time::sleep(self.options.retry_policy.delay).await;
                         }
@@ -519,6 +529,7 @@ fn is_retryable_error(err: &RepeError) -> bool {
         RepeError::Io(io_err) => matches!(
             io_err.kind(),
             std::io::ErrorKind::TimedOut
+                | std::io::ErrorKind::BrokenPipe
                 | std::io::ErrorKind::ConnectionRefused
                 | std::io::ErrorKind::ConnectionReset
                 | std::io::ErrorKind::ConnectionAborted
